@@ -4,7 +4,7 @@
    signals with a value table, the kind only; the full statement is
    Acme.C10.Proofs.import_signal_faithful_full_statement. *)
 From Coq Require Import String ZArith List.
-From Acme.C10 Require Import DbcDoc BusModel Import Bits BitsProofs Proofs ProofsEnum ProofsLayout ProofsFaithful ProofsMux ProofsExtMux ProofsDecode ProofsIds.
+From Acme.C10 Require Import DbcDoc BusModel Import Bits BitsProofs Proofs ProofsEnum ProofsLayout ProofsFaithful ProofsMux ProofsExtMux ProofsDecode ProofsIds ProofsEnumMux.
 Import ListNotations.
 Open Scope Z_scope.
 
@@ -154,3 +154,16 @@ Theorem import_simple_mux_abs : forall d b, import d = Ok b ->
     (d_messages d) (b_messages b).
 Proof. exact ProofsIds.import_simple_mux_abs. Qed.
 Print Assumptions import_simple_mux_abs.
+
+(* enum signals at every multiplexing depth, in every message: an imported enum signal is the signal of the
+   file with its index and name, that signal has a VAL_ line, the enum it refers to in the final table holds
+   exactly the values of its last VAL_ line (sorted by index) and its size is the file's size *)
+Theorem import_enum_all_depths : forall d b, import d = Ok b ->
+  Forall2 (fun dm m => forall s, In s (m_signals m) -> s_kind s = KEnum ->
+      exists ds vals, In (s_id s, ds) (index_from 0 (sorted_signals dm)) /\ s_name s = ds_name ds /\
+        last_valenc (d_valencs d) (dm_id dm, ds_name ds) = Some vals /\
+        sorted_enum_values (nth_enum (b_enums b) (s_enum s)) = vals /\
+        sig_size (b_enums b) s = ds_size ds)
+    (d_messages d) (b_messages b).
+Proof. exact ProofsEnumMux.import_enum_all_depths. Qed.
+Print Assumptions import_enum_all_depths.
